@@ -356,6 +356,13 @@ func (c *clipperBase) fixSelfIntersects(outrec *OutRec) {
 	for {
 		if segsIntersect(op2.prev.pt, op2.pt, op2.next.pt, op2.next.next.pt, false) {
 			if segsIntersect(op2.prev.pt, op2.pt, op2.next.next.pt, op2.next.next.next.pt, false) {
+				if verifOn && verifSkipMicroFix(op2) {
+					op2 = op2.next
+					if op2 == outrec.pts {
+						break
+					}
+					continue
+				}
 				op2 = duplicateOp(op2, false)
 				op2.pt = op2.next.next.next.pt
 				op2 = op2.next
